@@ -226,7 +226,9 @@ func (i *c17Info) IsDir() bool        { return i.mode.IsDir() }
 // c17InfoSys reports the owner through Sys() like package os does; c17InfoUG through Uid()/Gid().
 type c17InfoSys struct{ c17Info }
 
-func (i *c17InfoSys) Sys() any { return &syscall.Stat_t{Uid: i.uid, Gid: i.gid, Nlink: 3} }
+func (i *c17InfoSys) Sys() any {
+	return &syscall.Stat_t{Uid: i.uid, Gid: i.gid, Nlink: 3, Mode: syscall.S_IFDIR | 0o700, Size: 654321}
+}
 
 type c17InfoUG struct{ c17Info }
 
@@ -238,7 +240,8 @@ func (i *c17InfoUG) Gid() uint32 { return i.gid }
 type c17InfoBoth struct{ c17Info }
 
 func (i *c17InfoBoth) Sys() any {
-	return &syscall.Stat_t{Uid: i.uid + 1000, Gid: i.gid + 2000, Nlink: 2}
+	// (a view over a real file: the system data also has that file's own mode, size and times; what the FileInfo's methods say is what is presented)
+	return &syscall.Stat_t{Uid: i.uid + 1000, Gid: i.gid + 2000, Nlink: 2, Mode: syscall.S_IFREG | 0o777, Size: 123456, Mtim: syscall.Timespec{Sec: 42}, Atim: syscall.Timespec{Sec: 43}}
 }
 func (i *c17InfoBoth) Uid() uint32 { return i.uid }
 func (i *c17InfoBoth) Gid() uint32 { return i.gid }
